@@ -1,5 +1,5 @@
 //@unit passthru
-//@props C03 C05 C02 C11 C15 C19
+//@props C03 C05 C02 C11 C15 C19 C17
 // U-passthru: real (namespaced) SVG takes the pass-through route (src/transform.rs):
 // is_real_svg against a spec function written from the property statement, process_events returns
 // the input events unchanged and touches nothing but `real_svg`, postprocess writes exactly the
@@ -142,9 +142,20 @@ impl TransformerContext {
     #[verifier::external_body]
     pub fn set_events(&mut self, input: &InputList) ensures final(self).real_svg == old(self).real_svg { unimplemented!() }
     #[verifier::external_body]
-    pub fn update_element(&mut self, el: &SvgElement) ensures final(self).scope_stack@ == old(self).scope_stack@ { unimplemented!() }      // U-scope: scope_untouched
+    pub fn update_element(&mut self, el: &SvgElement) ensures final(self).scope_stack@ == old(self).scope_stack@, final(self).current_depth == old(self).current_depth { unimplemented!() }      // U-scope: scope_untouched; U-depth
     #[verifier::external_body]
-    pub fn set_prev_element(&mut self, el: &SvgElement) ensures final(self).scope_stack@ == old(self).scope_stack@ { unimplemented!() }
+    pub fn set_prev_element(&mut self, el: &SvgElement) ensures final(self).scope_stack@ == old(self).scope_stack@, final(self).current_depth == old(self).current_depth { unimplemented!() }
+    /// U-depth: C17.depth.inc.* / C17.depth.dec.* (proved there)
+    #[verifier::external_body]
+    pub fn inc_depth(&mut self) -> (r: Result<()>)
+        ensures r is Ok ==> final(self).current_depth == old(self).current_depth + 1, r is Err ==> final(self).current_depth == old(self).current_depth,
+            final(self).scope_stack@ == old(self).scope_stack@, final(self).real_svg == old(self).real_svg
+    { unimplemented!() }
+    #[verifier::external_body]
+    pub fn dec_depth(&mut self) -> (r: Result<()>)
+        ensures old(self).current_depth > 0 ==> r is Ok && final(self).current_depth == old(self).current_depth - 1, old(self).current_depth == 0 ==> r is Err,
+            final(self).scope_stack@ == old(self).scope_stack@, final(self).real_svg == old(self).real_svg
+    { unimplemented!() }
     /// U-scope: C15.push.scope / C15.push.innermost, C15.pop.scope (proved there)
     #[verifier::external_body]
     pub fn push_element(&mut self, el: &SvgElement)
@@ -189,6 +200,7 @@ pub fn tagify_indexed(input: InputList) -> Result<TagList> { unimplemented!() }
 #[verifier::external_body]
 pub fn process_tags(tags: &mut TagList, context: &mut TransformerContext, idx_output: &mut OutMap, bbb: &mut BoundingBoxBuilder) -> (r: Result<Option<BoundingBox>>)
     ensures final(context).real_svg == old(context).real_svg,      // (every nested generator ends in process_events: same clause, by induction on the nesting)
+        final(context).current_depth == old(context).current_depth,      // U-depth: C17.depth.restored for every generator
         // every generator changes the innermost scope at most (U-scope: C15.scope.outer_bindings_untouched)
         old(context).scope_stack.len() > 0 ==> final(context).scope_stack.len() == old(context).scope_stack.len()
             && final(context).scope_stack@.drop_last() == old(context).scope_stack@.drop_last(),
@@ -215,6 +227,7 @@ pub open spec fn only_real_svg_changed(pre: TransformerContext, post: Transforme
 //@ - final(context).real_svg == old(context).real_svg     @@C02.root.only_the_document_decides @@C03.events.nested_never_marks @@C05.root.only_the_document_decides
 //@ - old(context).scope_stack.len() > 0 ==> final(context).scope_stack.len() == old(context).scope_stack.len()
 //@       && final(context).scope_stack@.drop_last() == old(context).scope_stack@.drop_last()     @@C15.scope.outer_bindings_untouched
+//@ - final(context).current_depth == old(context).current_depth     @@C17.depth.restored
 //@end
 
 // ------------------------------------------------------------------------------ postprocess
@@ -294,7 +307,8 @@ impl EventGen for SvgElement {
     #[verifier::external_body]
     fn generate_events(&self, context: &mut TransformerContext) -> (r: Result<(OutputList, Option<BoundingBox>)>)
         // a graphics element (shape, use, reuse) closes with the bindings it found (U-scope: C15.reuse.bindings_restored; OtherElement never touches the scopes)
-        ensures graphics_name(self.name@) ==> final(context).scope_stack@ == old(context).scope_stack@
+        ensures graphics_name(self.name@) ==> final(context).scope_stack@ == old(context).scope_stack@,
+            final(context).current_depth == old(context).current_depth,      // U-depth: C17.depth.restored
     { unimplemented!() }
 }
 //@item src/transform.rs :: struct Container
@@ -314,6 +328,8 @@ impl EventGen for Container {
 //@ replace[R-into] <<<(inner_events.into(), None)>>> => <<<(OutputList::from_input(inner_events), None)>>>
 //@ replace[R-into] <<<events.push(OutputEvent::End(self.0.name.clone()));>>> => <<<events.push(ev_end(self.0.name.clone()));>>>
 //@ replace[R-typeann] <<<let mut inner_text = None;>>> => <<<let mut inner_text: Option<String> = None;>>>
+//@ before <<<let res = el.generate_events(context);>>>
+//@ | assert(context.current_depth + 1 == old(context).current_depth); // the element itself, dispatched again as an empty one, is not a nesting level of its own: the dispatcher counts it once @C17.depth.text_content_same_level
 //@ before <<<el.set_attr("text", text);>>>
 //@ | assert(content_of(inner_events.events@, inner_events.events@.len() as int, text@)); // element content promoted to the text attribute is one event's character data, verbatim @C19.content.promoted_verbatim
 //@ ensures
@@ -321,6 +337,7 @@ impl EventGen for Container {
 //@     r is Ok && r->Ok_0.0 == into_output(all_events_of(self.0, *old(context))) && r->Ok_0.1 is None
 //@     && *final(context) == *old(context)     @@C03.nested.verbatim
 //@ - r is Ok && old(context).scope_stack.len() > 0 ==> final(context).scope_stack@ == old(context).scope_stack@     @@C15.container.bindings_restored
+//@ - r is Ok ==> final(context).current_depth == old(context).current_depth     @@C17.depth.container_restored
 //@ loop 1
 //@ iter it
 //@ body-start
